@@ -335,3 +335,69 @@ def engine_C(name, kinds, iters, sizes, depth, adaptors=True, forget=True, wd_na
                       "call_codes": "0 next, 1 next_back, 2 len, 3 size_hint"})
     replay_and_validate(cases, wd, "C", f)
     return f
+
+
+# ------------------------------------------------------------------------------------------------
+# Engine E: cost.  Large queues (no snapshots), every measured call logged with the sizes it worked
+# on and the number of Ord::cmp calls; TraceCost.tla checks each against Cost!Bound.
+# ------------------------------------------------------------------------------------------------
+def cost_cases(kind, n, pattern, seed):
+    pops = ["pop"] if kind == "pq" else ["pop_min", "pop_max"]
+    popifs = ["pop_if"] if kind == "pq" else ["pop_min_if", "pop_max_if"]
+    peeks = ["peek", "peek_mut"] if kind == "pq" else ["peek_min", "peek_max", "peek_min_mut", "peek_max_mut"]
+    steps = [{"op": "fill", "n": n, "pattern": pattern, "seed": seed}]
+    picks = sorted({0, 1, 2, n // 4, n // 2, n - 2, n - 1} & set(range(n)))
+    for p in peeks:
+        steps.append({"op": p})
+    for i in picks:
+        k = "k%d" % i
+        steps += [{"op": "get", "k": k}, {"op": "get_priority", "k": k, "b": 1},
+                  {"op": "change_priority", "k": k, "r": 1000}, {"op": "change_priority", "k": k, "r": -1000},
+                  {"op": "change_priority_by", "k": k, "r": 999}, {"op": "change_priority_by", "k": k, "r": -999},
+                  {"op": "push", "k": k, "r": 0}, {"op": "push_increase", "k": k, "r": 998},
+                  {"op": "push_decrease", "k": k, "r": -998}, {"op": "push_increase", "k": k, "r": -5},
+                  {"op": "remove", "k": k}, {"op": "push", "k": k, "r": 997}, {"op": "push", "k": k, "r": -997}]
+    for j in range(6):
+        steps += [{"op": "push", "k": "x%d" % j, "r": [1000, -1000, 0, 5, -5, 1][j]}]
+    for j in range(8):
+        for p in pops:
+            steps.append({"op": p})
+        for p in popifs:
+            steps.append({"op": p, "yes": j % 2 == 0, "set": [] if j % 3 else [[-1000, 1000, 0][j % 3]]})
+    return steps
+
+
+def engine_E(name, kinds, sizes, lin_sizes, seed, wd_name=None):
+    f = Findings()
+    wd = vlib.workdir((wd_name or name) + "_E")
+    cases = []
+    for kind in kinds:
+        for n in sizes:
+            for pat in ("asc", "desc", "const", "rand"):
+                cases.append({"case": [kind, "log", n, pat], "kind": kind, "hasher": "std", "snap": 0, "universe": [],
+                              "steps": cost_cases(kind, n, pat, seed), "probes": [], "wit": []})
+        for n in lin_sizes:
+            for pat in ("asc", "desc", "const", "rand"):
+                g = {"n": n, "pattern": pat, "seed": seed}
+                steps = [{"op": "from_vec", "q": 0, "gen": g},
+                         {"op": "retain", "keepmod": 7}, {"op": "retain_mut", "keepmod": 2},
+                         {"op": "iter_mut", "n": 0}, {"op": "iter_mut", "n": 3},
+                         {"op": "convert"}, {"op": "convert"},
+                         {"op": "from_iter", "q": 2, "gen": dict(g, prefix="j")},
+                         {"op": "from_iter", "q": 3, "gen": dict(g, n=n // 3, prefix="i"), "hint": [0, -1]},
+                         {"op": "append", "q": 2, "o": 3}, {"op": "append", "q": 0, "o": 2}]
+                cases.append({"case": [kind, "lin", n, pat], "kind": kind, "hasher": "std", "snap": 0, "universe": [],
+                              "steps": steps, "probes": [], "wit": []})
+    f.samples.append({"engine": "E", "sizes": list(sizes), "linear_sizes": list(lin_sizes),
+                      "patterns": ["asc", "desc", "const", "rand"], "first_measured_steps": cases[0]["steps"][:6]})
+    f.stats["engines"].append({"engine": "E", "cases": len(cases), "sizes": list(sizes), "linear_sizes": list(lin_sizes)})
+    replay_and_validate(cases, wd, "E", f, module="TraceCost", count=False)
+    # distinct (kind, op, size class) measured
+    seen = set()
+    for ef in f.event_files[-len(cases):]:
+        for ln in open(ef):
+            e = json.loads(ln)
+            if "n0" in e:
+                seen.add((e.get("kind"), e["op"], e["n0"].bit_length()))
+    f.stats["distinct_nontrivial"] += len(seen)
+    return f
